@@ -693,6 +693,40 @@ func (m *collection) appendChildLLSnapshot(dst *segmentStack,
 	return dst
 }
 
+// refreshChildLLSnapshot recursively points the child stacks of ss at
+// the child collection snapshots of the given lower-level snapshot.  A
+// stack that stays around as the stackDirtyBase needs that, as its
+// child stacks otherwise keep the lower level of the time when the
+// stack was put together, which may lack what was persisted since.
+func (m *collection) refreshChildLLSnapshot(ss *segmentStack, src Snapshot) {
+	for cName, childCollection := range m.childCollections {
+		childStack, exists := ss.childSegStacks[cName]
+		if !exists || childStack.incarNum != childCollection.incarNum {
+			continue
+		}
+
+		var childSnap Snapshot
+		if src != nil {
+			childSnap, _ = src.ChildCollectionSnapshot(cName)
+
+			childFooter, ok := childSnap.(*Footer)
+			if ok && childFooter != nil &&
+				childFooter.incarNum != childCollection.incarNum {
+				childFooter.Close()
+				childSnap = nil
+			}
+		}
+
+		prevLowerLevelSnapshot := childStack.lowerLevelSnapshot
+		childStack.lowerLevelSnapshot = NewSnapshotWrapper(childSnap, nil)
+		if prevLowerLevelSnapshot != nil {
+			prevLowerLevelSnapshot.decRef()
+		}
+
+		childCollection.refreshChildLLSnapshot(childStack, childSnap)
+	}
+}
+
 // appendChildStacks recursively appends child segment stacks.
 func (m *collection) appendChildStacks(dst, src *segmentStack) *segmentStack {
 	if src == nil {
